@@ -382,7 +382,7 @@ class Gen:
 
     def function(self, sc):
         self.fn_count += 1
-        kind = self.r.randrange(10)
+        kind = self.r.randrange(13)
         name = f"f{self.fn_count}"
         deco = ""
         if self.chance(self.o["decorators"]):
@@ -453,6 +453,61 @@ class Gen:
             else:
                 out.append(f"fn {name}(cb, x) {{ if x > 2 {{ return cb(x - 1) }} return cb(x) + 1 }}")
             self.funcs[name] = (["fn1", "int"], "int")
+        elif kind == 11:        # generic (untyped) comparison / arithmetic on mixed int / float operands
+            self.features.add("generic-mixed-cmp")
+            op = self.pick(["<", "<=", ">", ">=", "==", "!="])
+            out.append(f"fn {name}(a, b) {{ return a {op} b }}")
+            fl = self.r.sample(["2.0", "1.5", "0.0", "(-0.0)", "3.0", "(-2.0)", "2.5"], 3)
+            it = self.r.sample(["2", "1", "0", "3", "(-2)"], 3)
+            out.append(f"let {name}f = Vec[{', '.join(fl)}]")
+            out.append(f"let {name}i = Vec[{', '.join(it)}]")
+            out.append(f"for i in 0..3 {{ for j in 0..3 {{ print({name}({name}f[i], {name}i[j])); print({name}({name}i[j], {name}f[i])); print({name}({name}f[i], {name}f[j])); print({name}({name}i[i], {name}i[j])) }} }}")
+            out.append('println("")')
+        elif kind == 12:        # a closure that uses a shadowing local only as an index / callee argument
+            self.features.add("capture-index-shadow")
+            a, b = self.r.randrange(0, 3), self.r.randrange(0, 3)
+            shape = self.r.randrange(3)
+            out.append(f"fn {name}() {{")
+            out.append("    let xs = [10, 20, 30]")
+            out.append(f"    let k = {a}")
+            if shape == 0:
+                out.append(f"    let k = {b}")
+                out.append("    let g = fn() { return xs[k] }")
+            elif shape == 1:
+                out.append("    let mut g = fn() { return 0 }")
+                out.append(f"    if true {{ let k = {b}; let t = 1; g = fn() {{ return xs[k] }} }}")
+            else:
+                out.append(f"    let k = {b}")
+                out.append("    let v = Vec[5, 6, 7]")
+                out.append("    let g = fn() { v[k] = v[k] + 100; return v[k] + xs[k] }")
+            out.append("    return g()")
+            out.append("}")
+            self.funcs[name] = ([], "int")
+        elif kind == 10:        # a declaration alone in a constant-if block stays local to the block
+            self.features.add("block-local-decl")
+            k1, k2 = self.r.randrange(1, 50), self.r.randrange(50, 99)
+            cond = self.pick(["true", "(1 < 2)", "true"])
+            shape = self.r.randrange(3)
+            if shape == 0:
+                out.append(f"fn {name}() {{ return {k1} }}")
+                out.append(f"if {cond} {{ fn {name}() {{ return {k2} }} }}")
+                out.append(f"print({name}())")
+            elif shape == 1:
+                out.append(f"fn {name}() {{")
+                out.append(f"    fn inner() {{ return {k1} }}")
+                out.append(f"    if {cond} {{ fn inner() {{ return {k2} }} }}")
+                out.append(f"    let w = {k1}")
+                out.append(f"    if {cond} {{ let w = {k2} }}")
+                out.append("    return inner() * 100 + w")
+                out.append("}")
+            else:
+                out.append(f"fn {name}() {{")
+                out.append(f"    let mut w = {k1}")
+                out.append(f"    if false {{ w = 0 }} else {{ let w = {k2} }}")
+                out.append(f"    if {cond} {{ let w = {k2}; print(w) }}")
+                out.append("    return w")
+                out.append("}")
+            self.funcs[name] = ([], "int")
         elif kind == 9:         # a closure created in an inner block / loop shares an OUTER local
             self.features.add("closure-inner-block")
             shape = self.r.randrange(4)
